@@ -169,7 +169,8 @@ def summarise_e1(pid, cfg, tps, results, wall, extra_assumptions=()):
             "rows_first_table": cfg.nmax, "rows_other_tables": cfg.nmax2, "int_abs_bound": cfg.int_bound,
             "int_abs_bound_nonlinear": cfg.small_int_bound, "string_length": cfg.str_len,
             "per_query_timeout_ms": cfg.timeout_ms,
-            "outside": "taller tables, larger values, longer strings, floats other than quarter-dyadics, everything DESIGN.md 9 lists",
+            "dates_datetimes": "1960-01-01 .. 2099-12-31 as integer days / microseconds (DESIGN.md 4.8); rows of individual templates may be bounded lower (Template.nmax)",
+            "outside": "taller tables, larger values, longer strings, floats other than quarter-dyadics, durations, time zones, everything DESIGN.md 9 lists",
         },  # fmt: skip
         "exhaustive": False,
         "explanation": "programs enumerated from the property's template corpus; for each program z3 decides equality of the compiled artefact's semantics with REF / the other backend for all input tables in the bounds (unsat = discharged); sat answers are replayed on the real engines",
